@@ -3,3 +3,6 @@ import SycVerif.Props.C19
 import SycVerif.Props.C19Easing
 import SycVerif.Driver.Main
 import SycVerif.Props.C18
+import SycVerif.Props.C01
+import SycVerif.Props.C16
+import SycVerif.Props.ReactiveBasic
